@@ -246,6 +246,18 @@ def gen_c08(rnd, n, thorough=False):
             observe_all(gl, 'h/y/b.wsp', l2, until='@+9', now='@+9')
             gl.append("clidiff src=g:y/*.wsp dest=h: from=0 until=0 archive=-1")
             cases.append({'id': 'c08-%d-live' % c, 'lines': gl, 'tags': {'layout': 'live', 'dest': 'glob_live_source', 'window': 'default'}})
+    # a copy that has to write one run of several thousand consecutive slots (a densely filled source, a destination
+    # that does not exist or holds nothing): every slot of the window, and a clean diff afterwards
+    N_ = 6000 if not thorough else 12000
+    ll = ["create s/long.wsp 1 1 %d m 2 x 00000000" % N_,
+          "many s/long.wsp 0 @ %d %s" % (N_ - 20, " ".join("@-%d %016x" % (q, fbits(float(q % 977) + 0.5)) for q in range(N_ - 20))),
+          "sync s/long.wsp", "drop s/long.wsp"]
+    if rnd.chance(0.5):
+        ll += ["create d/long.wsp 1 1 %d m 2 x 00000000" % N_, "sync d/long.wsp", "drop d/long.wsp"]
+    ll += ["clicopy src=s:long.wsp dest=d:long.wsp from=0 until=0 archive=-1 copynan=0 m=2 x=00000000 layout=%s" % lay_csv([(1, N_)]),
+           "clidiff src=s:long.wsp dest=d:long.wsp from=0 until=0 archive=-1"]
+    observe_all(ll, 'd/long.wsp', [(1, N_)])
+    cases.append({'id': 'c08-longrun', 'lines': ll, 'tags': {'layout': 'long%d' % N_, 'dest': 'missing_or_fresh', 'window': 'default'}})
     return cases
 
 
@@ -758,6 +770,20 @@ def gen_c18(rnd, n, thorough=False):
         lines.append("cliview src=s:%s from=0 until=0 archive=%d header=1 remote=%d" % (vname, a, rnd.pick([0, 1])))
         lines.append("cliviewraw src=s:%s from=0 until=0 archive=%d header=0 sort=1 remote=%d" % (vname, a, rnd.pick([0, 1])))
         cases.append({'id': 'c18-%d' % c, 'lines': lines, 'tags': {'layout': lname}})
+    # view and view-raw of a file with never-written archives, after the same process (or the same server) has
+    # summed an item whose first file was never written while a later one holds data: still exactly what is stored
+    for j in range(2):
+        lay = [(1, 30), (5, 12)]
+        ll = ["create s/i1/a0.wsp %s m 2 x 3f000000" % fmt_layout(lay), "sync s/i1/a0.wsp", "drop s/i1/a0.wsp",
+              "create s/i1/f1.wsp %s m 2 x 3f000000" % fmt_layout(lay),
+              "many s/i1/f1.wsp -1 @ 3 @ %016x @-2 %016x @-7 %016x" % (fbits(5.0), fbits(6.0), fbits(7.0)), "sync s/i1/f1.wsp", "drop s/i1/f1.wsp",
+              "create s/i2/z.wsp %s m 2 x 3f000000" % fmt_layout(lay), "sync s/i2/z.wsp", "drop s/i2/z.wsp",
+              "cliview src=s:i2/z.wsp from=0 until=0 archive=-1 header=1 remote=%d" % j,
+              "clisum base=s item=i1 src=*.wsp from=0 until=0 archive=-1 header=0 remote=%d" % j,
+              "cliview src=s:i2/z.wsp from=0 until=0 archive=-1 header=1 remote=%d" % j,
+              "cliviewraw src=s:i2/z.wsp from=0 until=0 archive=-1 header=0 sort=1 remote=%d" % j,
+              "cliview src=s:i1/a0.wsp from=0 until=0 archive=1 header=0 remote=%d" % (1 - j)]
+        cases.append({'id': 'c18-aftersum-%d' % j, 'lines': ll, 'tags': {'layout': 'aftersum'}})
     return cases
 
 
@@ -844,6 +870,12 @@ def gen_c20(rnd, n, thorough=False):
         gl = ["cligenerate dest=g/m%d.wsp m=2 x=3f000000 layout=%s max=10 fill=0" % (j, lay_csv(lay)), "hdrof g/m%d.wsp" % j,
               "dfetch g/m%d.wsp 0 @-5 @ @" % j]
         cases.append({'id': 'c20-mib-%d' % j, 'lines': gl, 'tags': {'levels': len(lay), 'fill': 0, 'max': 10, 'size': 'MiB'}})
+    # ONE generate command value executed twice, for two destinations, two clock seconds apart: the second file is
+    # complete up to the instant of ITS run
+    for j_ in range(1 if not thorough else 2):
+        lay_ = [(1, 30), (5, 24)] if j_ == 0 else [(1, 12), (4, 6), (12, 5)]
+        ll_ = ["cligenerate dest=g/tw%d.wsp m=2 x=3f000000 layout=%s max=50 fill=1 twice=1" % (j_, lay_csv(lay_)), "hdrof g/tw%d.wsp" % j_]
+        cases.append({'id': 'c20-twice-%d' % j_, 'lines': ll_, 'tags': {'levels': len(lay_), 'fill': 1, 'max': 50, 'genat': 'same_value_twice'}})
     return cases
 
 
@@ -1029,6 +1061,19 @@ def gen_c12(rnd, n, thorough=False):
             lines.append('cliquerycap src=%s archive=%d from=%s until=%s' % (('i1/' + nm).encode('utf-8').hex(), rnd.pick([-1, 0, 1, 7, -5, 2 ** 40]),
                                                                             rnd.pick(['0', '@-30', '1']), rnd.pick(['0', '@-3', '@+5'])))
         cases.append({'id': 'c12-%d' % c, 'lines': lines, 'tags': {'layout': lname}})
+    # files longer than their header requires (padding behind the last archive: Open accepts them): every read shows
+    # the archives the header announces, through a server as through the directory
+    from gens_codec import image_py, hx as _hx
+    for j in range(2):
+        lay = [(1, 6), (3, 5)] if j == 0 else [(2, 7)]
+        sl = {a_: [(1600000000 + q * s_, fbits(float(10 * a_ + q))) for q in range(n_)] for a_, (s_, n_) in enumerate(lay)}
+        pad = bytes(rnd.getrandbits(8) for _ in range(rnd.pick([12, 24, 36, 40]))) if rnd.chance(0.6) else bytes(rnd.pick([12, 36, 4096]))
+        pl = ["rawfile s/pad.wsp %s" % _hx(image_py(2, 0x3f000000, lay, sl) + pad)]
+        for rem in (1, 0):
+            pl.append("cliviewraw src=s:pad.wsp from=0 until=0 archive=-1 header=1 sort=0 remote=%d" % rem)
+            pl.append("cliviewraw src=s:pad.wsp from=0 until=0 archive=%d header=0 sort=1 remote=%d" % (len(lay) - 1, rem))
+            pl.append("cliview src=s:pad.wsp from=0 until=0 archive=-1 header=1 remote=%d" % rem)
+        cases.append({'id': 'c12-padded-%d' % j, 'lines': pl, 'tags': {'layout': 'padded'}})
     cases.append({'id': 'c12-newline', 'lines': ['clinewline'], 'tags': {'layout': 'newline_in_name'}})
     cases.append({'id': 'c12-wsitem', 'lines': ['cliwsitem'], 'tags': {'layout': 'blank_in_item_name'}})
     # the same requests in flight at once (the served file is kept locked while they arrive), among
@@ -1222,6 +1267,20 @@ def gen_c16(rnd, n, thorough=False):
         cases.append({'id': 'c16-%d' % c, 'lines': lines, 'tags': {'layout': lname, 'src': srckind, 'dest': destkind, 'sub': hist}})
         if c == 1:
             cases.append(many_files_case(rnd, 'c16-%d-many' % c, ['sum', 'sumcopy', 'sumdiff']))     # (sum-diff after sum-copy: with a missing destination AND an unreadable source, which of the two concurrent failures is reported is not determined)
+    # one archive selected, and destinations whose layout differs from the sources' in the NUMBER of archives only
+    # (the selected archive is defined alike on both sides): unequal layouts are an error for diff and sum-diff,
+    # never a panic and never a verdict
+    for j, (lay_s, lay_d) in enumerate([([(1, 20), (5, 12), (20, 6)], [(1, 20), (5, 12)]), ([(1, 20), (5, 12)], [(1, 20), (5, 12), (20, 6)]),
+                                        ([(2, 15), (10, 9)], [(2, 15)])]):
+        pl = fill_ops(rnd, 's/i1/a.wsp', lay_s, 2, 0x3f000000, density=0.6, inconsistent=False)
+        pl += fill_ops(rnd, 's/i1/b.wsp', lay_s, 2, 0x3f000000, density=0.6, inconsistent=False)
+        pl += fill_ops(rnd, 'd/a.wsp', lay_d, 2, 0x3f000000, density=0.6, inconsistent=False)
+        pl += fill_ops(rnd, 'e/i1/sum.wsp', lay_d, 2, 0x3f000000, density=0.6, inconsistent=False)
+        for arch in range(min(len(lay_s), len(lay_d))):
+            pl.append("clisumdiff base=s item=i1 src=[ab].wsp destbase=e dest=sum.wsp from=0 until=0 archive=%d textout=%s" % (arch, rnd.pick(['file', 'discard'])))
+            pl.append("clidiff src=s:i1/a.wsp dest=d:a.wsp from=0 until=0 archive=%d textout=file" % arch)
+        pl.append("clisumdiff base=s item=i1 src=[ab].wsp destbase=e dest=sum.wsp from=0 until=0 archive=-1 textout=file")
+        cases.append({'id': 'c16-prefixlayout-%d' % j, 'lines': pl, 'tags': {'layout': 'prefix', 'src': 'ok', 'dest': 'mismatch', 'sub': {'sumdiff': len(lay_d) + 1, 'diff': len(lay_d)}}})
     # retention definitions with a zero step or a zero retention, for every command that takes -retentions: a usage
     # error, never a panic
     ll = []
